@@ -33,6 +33,20 @@ def cbmc_queries(tier):
                         core = (sp == (1, 1, 1) and fl == 1 and oc == 64)
                         qs.append(stream_query("STALE", wrap, sp, oc, 0, fl, list(cl), check05=1, witness=core or (oc == 8 and fl == 2 and i == 1),
                                                core=core, fam="STALE", timeout=400))
+    # flush requested with the SECOND chunk, a further non-final chunk after it, end of stream announced separately
+    # (history buffered before the flush must not be counted as history of the chunk after it)
+    for i, sp in enumerate([(2, 1, 1), (3, 0, 1), (2, 0, 1), (1, 1, 1)]):
+        n = sum(sp)
+        for fl in (1, 2):
+            for oc in ((64,) if quick else (64, 8, 1)):
+                vecs = list(itertools.product(D.STATIC_LIT_CLASSES, repeat=n))
+                if quick:
+                    vecs = [vecs[(i + fl) % len(vecs)]]
+                for cl in vecs:
+                    qs.append(stream_query("STALE", 0, sp, oc, 1, fl, list(cl), check05=1, witness=(i == 0 and fl == 2 and oc == 64), fam="STALE",
+                                           timeout=400, flushat=1))
+                    if sp[2]:   # ... and the chunk after the flush is itself fed with SYNC_FLUSH (so that it is compressed at once)
+                        qs.append(stream_query("STALE", 0, sp, oc, 1, fl, list(cl), check05=1, witness=False, fam="STALE", timeout=400, flushat=1, flush3=1))
     nocls = ("c-", [], [], True)
     for n in (1, 3):
         for wrap in (0, 1):
